@@ -54,7 +54,29 @@ pub fn differential(ctx: &Ctx, rep: &mut Report) {
         let mut rng = rng_for(ctx.seed, &format!("c14-len-{}", l));
         check(&vec![0u8; l], rep);
         check(&vec![0xffu8; l], rep);
-        check(&rand_bytes(&mut rng, l), rep);
+        let s0 = rand_bytes(&mut rng, l);
+        check(&s0, rep);
+        // call sequences on one thread: a permutation of the same bytes (same length, byte sum
+        // and xor), the original again, an extension and a truncation of it, the original again
+        if l >= 2 {
+            let mut s1 = s0.clone();
+            let (i, j) = (rng.gen_range(0..l), rng.gen_range(0..l));
+            s1.swap(i, j);
+            check(&s1, rep);
+            check(&s0, rep);
+            let mut s2 = s0.clone();
+            s2.rotate_left(1);
+            check(&s2, rep);
+            rep.count("checksum_preserving_sequences", 1);
+        }
+        let mut s3 = s0.clone();
+        s3.push(0);
+        check(&s3, rep);
+        check(&s0, rep);
+        if l >= 1 {
+            check(&s0[..l - 1], rep);
+            check(&s0, rep);
+        }
         rep.count("lengths", 1);
         rep.nontrivial(format!("len|{}", l).as_bytes());
     });
